@@ -124,9 +124,8 @@ EditOk(s, e) ==
   \cup (IF e.law /\ ~WellFormed(s, e) THEN {Cl("IllFormedAccepted", FALSE)} ELSE {})
 
 CutPieceBelowMin(s, e) ==
-  /\ e.op = "cut_slice" /\ e.form = "slice" /\ e.opts.norm = "True" /\ WellFormed(s, e)
-  /\ NormStop(LenOld(s, e), Lo(s, e), e.stop) - NormStart(LenOld(s, e), Lo(s, e), e.start)
-       < MinLen(TKind(s, e), e.field)
+  /\ e.op \in {"cut_slice", "sv_cut"} /\ e.form = "slice" /\ e.opts.norm = "True" /\ WellFormed(s, e)
+  /\ LenOld(s, e) - Len(Expected(s, e)) < MinLen(TKind(s, e), e.field)      \* number of elements in the returned piece
 
 (* refusals the documentation announces; everything else that is valid must  *)
 (* be carried out                                                            *)
